@@ -100,6 +100,86 @@ def decimals(tier):
     return out
 
 
+ASTRONOMIC = (50, 100, 1000, 10**4, 10**5, 10**6, 10**7, 10**8, 999999999,
+              10**12, 999999999999999999)
+
+
+def astronomic(k):
+    """Small objects that stand for astronomically many digits: an encoder
+    must refuse them (or encode a zero) without writing the digits out. One
+    task per exponent, so that a call that does not return names it."""
+    out = []
+    for lead in ('1', '-1', '0', '-0', '12345.678', '0.1'):
+        for sign in ('+', '-'):
+            try:
+                out.append(D('%sE%s%d' % (lead, sign, k)))
+            except decimal.InvalidOperation:
+                pass
+    return out
+
+
+class WroteDigits(BaseException):
+    """An encoder ran out of memory on a value that is a few bytes long."""
+
+
+def check_astronomic(ctx, k):
+    import resource
+    p = lib.pamqp()
+    e, d = p.encode, p.decode
+    soft, hard = resource.getrlimit(resource.RLIMIT_AS)
+    cap = 2 << 30
+    if hard != resource.RLIM_INFINITY:
+        cap = min(cap, hard)
+    resource.setrlimit(resource.RLIMIT_AS, (cap, hard))
+
+    def capped(enc):
+        def call(value):
+            try:
+                return enc(value)
+            except MemoryError:
+                raise WroteDigits()
+        return call
+
+    def headers(value):
+        return p.commands.Basic.Properties(headers=value).marshal()
+
+    try:
+        for v in astronomic(k):
+            for label, enc, dec, value in (
+                    ('encode.decimal', e.decimal, d.decimal, v),
+                    ('encode.encode_table_value', e.encode_table_value,
+                     d.embedded_value, v),
+                    ('encode.field_table', e.field_table, d.field_table,
+                     {'k': v}),
+                    ('encode.field_array', e.field_array, d.field_array, [v]),
+                    ('Basic.Properties(headers=).marshal', headers, None,
+                     {'k': v})):
+                try:
+                    if dec is None:
+                        ctx.case((label, short(value, 300)), True)
+                        try:
+                            capped(enc)(value)
+                            ctx.outcome('encoded')
+                        except Exception:  # noqa
+                            ctx.outcome('raised')
+                        ctx.valid()
+                        ctx.calls()
+                    else:
+                        judge(ctx, label, value, capped(enc), dec)
+                except WroteDigits:
+                    ctx.outcome('out-of-memory')
+                    ctx.violation(
+                        'memory|{}|{}'.format(label, short(value, 300)),
+                        '{}({}) ran out of memory (address space capped at '
+                        '{} MiB): the encoder writes the digits of an '
+                        'unencodable value out instead of refusing it'.format(
+                            label, short(value, 120), cap >> 20),
+                        {'kind': 'astronomic', 'k': k}, 'raise',
+                        'MemoryError')
+    finally:
+        resource.setrlimit(resource.RLIMIT_AS, (soft, hard))
+
+
 def datetimes():
     dt = datetime.datetime
     out = [dt(1, 1, 1), dt(1, 1, 1, tzinfo=UTC), dt(1969, 12, 31, 23, 59, 59),
@@ -756,6 +836,7 @@ def tasks(tier, seed):
     out = [('encoders',), ('bit',), ('envelope',), ('props',),
            ('surrogates',)]
     out += [('dense', k) for k in DENSE]
+    out += [('astronomic', k) for k in ASTRONOMIC]
     out += [('method', m.name) for m in spec_table.METHODS if m.args]
     return out
 
@@ -766,6 +847,8 @@ def run(task, ctx):
         check_encoders(ctx)
     elif kind == 'bit':
         check_bit(ctx)
+    elif kind == 'astronomic':
+        check_astronomic(ctx, task[1])
     elif kind == 'surrogates':
         check_surrogates(ctx)
     elif kind == 'envelope':
@@ -808,6 +891,8 @@ def replay(case, ctx):
         check_bit(ctx)
         ctx.violations = [v for v in ctx.violations if v['case'] == case] \
             or ctx.violations
+    elif kind == 'astronomic':
+        check_astronomic(ctx, case['k'])
     elif kind == 'encoder' and case['label'] in simple_pairs():
         enc, dec, tn = simple_pairs()[case['label']]
         judge(ctx, case['label'], fromjson(case['value']), enc, dec,
